@@ -22,7 +22,8 @@ use tokio::time::timeout as tokio_timeout;
 
 use super::parse_bool_option;
 
-const MAX_DEALER_SEND_BUFFER_PARTS: usize = 10240;
+// A FrameBatch holds at most 255 frames; leave room for the delimiter the DEALER prepends.
+const MAX_DEALER_SEND_BUFFER_PARTS: usize = 253;
 
 #[derive(Debug)]
 enum DealerSendTransaction {
